@@ -202,7 +202,7 @@ def main():
         print("MANIFEST.json written (jsonschema not available for validation)")
 
 
-HOOK_COMMITS = ["7047929"]
+HOOK_COMMITS = ["7047929", "25490b6"]
 
 if __name__ == "__main__":
     main()
